@@ -66,3 +66,7 @@ pub open spec fn tip909_applied<C: ContentAddrStore>(s: UnsealedState<C>, r: Uns
     &&& exists|mel: int, erg: int| #[trigger] right_fed(s.pools@[pk_mel_sym()], r.pools@[pk_mel_sym()], spec_tip909_fee_part(reward, a) as int, mel)
             && #[trigger] right_fed(s.pools@[pk_erg_sym()], r.pools@[pk_erg_sym()], spec_tip909_erg_part(reward, a) as int, erg) && r.fee_pool.0 as int == s.fee_pool.0 + mel
 }
+
+/// coin ids that settlement may introduce are ids of transaction outputs (never a reward or faucet-marker pseudo-id)
+pub open spec fn tx_id(id: CoinID) -> bool { exists|tx: Transaction| id.txhash == #[trigger] spec_txhash(tx) }
+pub open spec fn ids_new(c0: IMap<CoinID, CoinDataHeight>, c1: IMap<CoinID, CoinDataHeight>) -> bool { forall|id: CoinID| #[trigger] c1.contains_key(id) ==> c0.contains_key(id) || tx_id(id) }
